@@ -80,6 +80,10 @@ class Gen:
             if strict and c == "ref":
                 c = "block"          # class bodies are strict code: no `with`
         if self._gen and r.random() < 0.22:
+            if self._gen.startswith("await") and r.random() < 0.3:
+                # await of a REJECTED promise: the continuation is asyncRunner.onRejected → generator.nextThrow, i.e. the
+                # resume point completes with a throw (same curAsyncRunner bracket as onFulfilled)
+                return ["S", "YD", "T"], "await Promise.reject(new Error('t'));"
             return ["YD"], self._gen
         if c == "gop" and self.slots == 0:
             c = "gen" if d > 0 else "P"
@@ -466,6 +470,17 @@ def regression_seeds():
         s.append(H(-1, [["RP", str(k), "i" if kind == "i" else "t"] + gtok2], [{"api": "RP", "src": gsrc2, "k": k, "kind": kind}], gdecl))
     for k, kind, mx in ((0, "t", -1), (3, "i", -1), (3, "t", -1), (4, "o", -1), (0, "t", 1), (0, "t", 2), (0, "t", 3)):
         s.append(H(mx, [["RP", str(k), "i" if kind == "i" else "t"] + atok], [{"api": "RP", "src": asrc, "k": k, "kind": kind}]))
+    # await of a rejected promise: the continuation is asyncRunner.onRejected → generator.nextThrow (caught / uncaught),
+    # faults and stack overflow inside such a continuation
+    asrc2 = ("(async function(){ try { P(1); await Promise.reject(new Error('t')); P(2); } catch(e) { P(3); await 0; P(4); } "
+             "finally { P(6); } })(); P(5);")
+    atok2 = ["S", "AC", "0", "Y", "1", "1", "S", "P", "1", "S", "S", "YD", "T", "P", "2", "S", "P", "3", "S", "YD", "P", "4", "P", "6", "P", "5"]
+    asrc3 = "(async function(){ P(1); await Promise.reject(new Error('t')); P(2); })(); P(5);"
+    atok3 = ["S", "AC", "0", "S", "P", "1", "S", "S", "YD", "T", "P", "2", "P", "5"]
+    for k, kind, mx in ((0, "t", -1), (3, "i", -1), (3, "t", -1), (4, "o", -1), (0, "t", 1), (0, "t", 2)):
+        s.append(H(mx, [["RP", str(k), "i" if kind == "i" else "t"] + atok2], [{"api": "RP", "src": asrc2, "k": k, "kind": kind}]))
+    for k, kind, mx in ((0, "t", -1), (0, "t", 1)):
+        s.append(H(mx, [["RP", str(k), "i" if kind == "i" else "t"] + atok3], [{"api": "RP", "src": asrc3, "k": k, "kind": kind}]))
     # repaired by 404e270 (defect:unwind-abort-in-recover): the loop body throws from a native (Go panic → recover →
     # handleThrow at the JS try frame), closing the iterator overflows the call stack inside its return()
     s.append(H(1, [["CA", "0", "1", "t", "Y", "1", "0", "S", "Fn", "1", "K", "FO", "G", "0", "P", "2", "P", "1", "K", "K"]],
@@ -912,7 +927,7 @@ TIE_MODEL_OF = {
     "genStep1": "genNext / genLeave / genFinish (the `returning` branch is outside the model)", "genNext": "genNext / genLeave / genFinish",
     "genNextThrow": "genThrow", "genDropMarkerOnPanic": "genNew (second pushCtx overflow)", "vmSuspend": "genLeave (no live records at a top-level yield)",
     "vmResume": "genEnterNext", "genObjInit": "genNew", "genObjNext": "genNext (state machine)", "genObjThrow": "genThrow", "genObjReturn": "genReturn",
-    "asyncOnFulfilled": "asyncResume (curAsyncRunner itself: Idle vector only)", "asyncOnRejected": "asyncResume's throw-in variant (not modelled: awaits of settled values only)",
+    "asyncOnFulfilled": "asyncResumeCA (Vm.curAsync set; the deferred clear) around asyncResume", "asyncOnRejected": "asyncResumeCA around asyncResume whose resume point is followed by throw_ (await of a rejected promise)",
     "asyncStart": "asyncNew / actEnter / actCall / actBack", "asyncStep": "asyncNew / asyncResume (await = queue the continuation; done / ex = settle the promise)",
 }
 
